@@ -69,6 +69,28 @@ def run_case(ctx, case):
         elif after != orig:
             rec.violation("insert-then-remove did not restore the representation", case, after=ser(after), expected=ser(orig))
         return
+    if W is not None and mtol is not None:
+        # rational curves: the integral of the squared deviation is not a rational number; a midpoint-rule value (exact
+        # rational evaluations, 16 samples per span) that exceeds the allowed bound a thousandfold is conclusive
+        e = drv.call("rf.eq", *curve_args(*start), *curve_args(*after))
+        l3(rec, "rf.eq")
+        if e != ("ok", "yes"):
+            ks = sorted(set(start[0]) | set(after[0]))
+            us, hs = [], []
+            for a_, b_ in zip(ks[:-1], ks[1:]):
+                for j in range(16):
+                    us.append(a_ + (b_ - a_) * F(2 * j + 1, 32))
+                    hs.append((b_ - a_) / 16)
+            v0 = drv.call("curve.eval", *curve_args(*start), us)
+            v1 = drv.call("curve.eval", *curve_args(*after), us)
+            if v0[0] == "ok" and v1[0] == "ok":
+                dim = len(v0[1][0])
+                approx = [sum(h * (p0[d_] - p1[d_]) ** 2 for h, p0, p1 in zip(hs, v0[1], v1[1])) for d_ in range(dim)]
+                bound = 2 * mtol * max(1, U[-1] - U[0])
+                if any(x > 1000 * bound for x in approx):
+                    rec.violation("accepted removal of a rational curve deviates far more than the tolerance allows", case,
+                                  sqdist_midpoint_rule=ser(approx), bound=str(bound), oracle=ser(e), after=ser(after))
+                    return
     if W is None:
         d = drv.call("rf.sqdist", *curve_args(*start), *curve_args(*after))
         l3(rec, "rf.sqdist")
@@ -103,6 +125,19 @@ def run(ctx):
         mode = rng.choice(["roundtrip"] * 4 + ["generic", "generic", "tolerant", "forced", "absent", "endknot"])
         U, P, W = rand_curve(rng, pmax=3, nintmax=2, force_zero=(i % 7 == 0))
         p, n, knots = kv_info(U)
+        if i % 9 == 3:
+            # rational curve whose numerator is exactly removable at a knot while its weight function is not: must be refused
+            p_ = rng.randint(1, 3)
+            iv = rand_interval(rng)
+            kx = iv[0] + (iv[1] - iv[0]) * rng.choice(GRID)
+            U0 = [iv[0]] * (p_ + 1) + [iv[1]] * (p_ + 1)
+            num = make_curve(U0, rand_points(rng, p_ + 1, rng.choice([1, 2]), ints=True), None)
+            num.knot_insert([kx])
+            U1 = [frac(x) for x in num.knotvector]
+            Wd = [F(rng.randint(1, 9), rng.randint(1, 3)) for _ in range(len(U1) - p_ - 1)]
+            Pd = [tuple(x / w for x in q) for q, w in zip(pts_canon(num.ctrlpoints), Wd)]
+            run_case(ctx, ser(dict(kind="remove", U=U1, P=Pd, W=Wd, mode="generic", nodes=[kx], tol=rng.choice(["default", F(1, 1000)]))))
+            continue
         if mode == "roundtrip":
             nodes = c04.gen_nodes(rng, U, valid=True)
             if not nodes:
